@@ -152,6 +152,11 @@ package middleware
 //@ ensures[unreachable-store-is-500] called(VerifyConnection) && ret(VerifyConnection) != nil ==> called(WriteHeader#0)
 //@     && arg(WriteHeader#0, 0) == 500 && !called(WriteHeader#1) && !called(ServeHTTP)
 //@ ensures[other-paths-pass-through] !called(VerifyConnection) ==> called(ServeHTTP)
+// only a request whose path AS SENT (escaped form) is the configured path is answered here; a path that merely decodes to it
+// belongs to the upstream
+//@ prop C17
+//@ at call VerifyConnection assert[only-the-literal-ready-path-is-answered-here] path != "" && called(EscapedPath) && ret(EscapedPath) == path
+//@     && recv(EscapedPath) == req.URL
 
 // ------------------------------------------------------------------ C01 / C16: the request scope starts without a session
 //@ func NewScope$1$1
@@ -196,6 +201,14 @@ package middleware
 //@ prop C17
 //@ at call ServeHTTP assert[next-gets-request-and-writer-unchanged] recv(ServeHTTP) == next && arg(ServeHTTP, 0) == rw && arg(ServeHTTP, 1) == req
 //@ ensures[everything-but-health-checks-passes-on] called(ServeHTTP) <==> !ret(isHealthCheckRequest)
+//@ at call isHealthCheckRequest assert[judged-on-this-request] arg(isHealthCheckRequest, 2) == req
+
+//@ func isHealthCheckRequest
+//@ safety
+//@ nomod
+//@ prop C17
+//@ ensures[only-the-literal-ping-path-or-a-listed-agent] result <==> inmap(paths, ret(EscapedPath)) || inmap(userAgents, ret(Get))
+//@ ensures[path-as-sent-and-the-user-agent-header] recv(EscapedPath) == req.URL && (called(Get) ==> arg(Get, 1) == "User-Agent" && arg(Get, 0) == req.Header)
 
 //@ func redirectToHTTPS$1
 //@ safety
@@ -271,3 +284,15 @@ package middleware
 //@     && ((ret0 == ret0(getBasicAuthCredentials) && (ret1(getBasicAuthCredentials) == "x-oauth-basic" || ret1(getBasicAuthCredentials) == ""))
 //@         || (ret0 == ret1(getBasicAuthCredentials) && !reMatch(j.jwtRegex, ret0(getBasicAuthCredentials))))
 //@ ensures[an-error-carries-nothing] ret1 != nil ==> ret0 == ""
+
+// ------------------------------------------------------------------ what a handler closure sees under a constructor parameter's name is what the caller passed
+// (a wrapper slipped in between — a caching validator, a decorated store — would be invisible to the contracts of the closures)
+//@ prop C01 C20 C12 C13 C19 C04 C07 C16 C17
+//@ scan[constructor-parameters-reach-the-closures-as-given] params-captured-as-given pkg/middleware.* pkg/upstream.* pkg/header.* pkg/sessions/* pkg/app/* pkg/apis/middleware.* main.* pkg/cookies.* providers.* pkg/providers/* pkg/authentication/* pkg/validation.* pkg/requests.* pkg/ip.* pkg/encryption.* pkg/util.*
+
+// the legacy prefer-email switch only copies the user name of the session the basic loader produced (possibly none)
+//@ func loadBasicAuthSession$1
+//@ safety
+//@ prop C19 C01
+//@ ensures[the-validated-basic-session-or-nothing] ret0 == ret0(getBasicSession) && ret1 == ret1(getBasicSession)
+//@     && arg(getBasicSession, 0) == validator && arg(getBasicSession, 2) == req
